@@ -1,6 +1,7 @@
 import SppModel
 import SppModel.Generated.LoopKernels
 import SppModel.Generated.MomentKernels
+import SppModel.Generated.BlockKernels
 /-!
 Line-protocol driver for the executable model (`lake env lean --run Driver.lean`).
 One request per line on stdin, one answer per line on stdout.  Unknown or
@@ -698,8 +699,43 @@ def stepK (ts : List String) : String :=
             cells nout (remove_zerodm_exec nout (arrQ x) (arrQ o) (arrQ bp) (arrQ w) C T)
         | "downsample_1d", [f, len, nout], [x] => cells nout (downsample_1d_mean_exec nout (arrQ x) f len)
         | "downsample_2d", [f1, f2, d1, d2, nout], [x] => cells nout (downsample_2d_mean_flat_exec nout (arrQ x) f1 f2 d1 d2)
+        | "fold", [md, total, n, C, nbins, nints, nsubs, idx, nout], [x, fa, ca, d, [tsamp, period, accel]] =>
+            let r := fold_exec nout (arrQ x) (arrQ fa) (arrQ ca) (arrN (nat d)) md tsamp period accel total n C nbins nints nsubs idx
+            s!"ok {showRats ((List.range nout).map r.1)} | {showRats ((List.range nout).map r.2)}"
         | _, _, _ => "bad-op"
       | _, _ => "bad-op"
+    | _ => "bad-op"
+  | _ => "bad-op"
+
+/-! ### KB — the GENERATED 2-D block kernels (`Generated/BlockKernels.lean`):
+    `KB <kernel> rows cols nsh | <block, row-major> | <shift vector or shift table, row-major>`;
+    answers `ok r c <cells>` (the first `r × c` cells; `r c` given as the 4th/5th ints) or `none` -/
+
+def arr2Q (cols : Nat) (xs : List Rat) : Nat → Nat → Rat := let a := xs.toArray; fun r k => if k < cols then a.getD (r * cols + k) 0 else 0
+def arr2Z (cols : Nat) (xs : List Int) : Nat → Nat → Int := let a := xs.toArray; fun r k => if k < cols then a.getD (r * cols + k) 0 else 0
+def arrZ (xs : List Int) : Nat → Int := let a := xs.toArray; fun k => a.getD k 0
+
+def cells2 (r c : Nat) (o : Option (Nat → Nat → Rat)) : String :=
+  match o with
+  | none => "none"
+  | some f => s!"ok {showRats ((List.range r).flatMap (fun i => (List.range c).map (f i)))}"
+
+open SppModel.Generated.BlockKernels in
+def stepKB (ts : List String) : String :=
+  match ts with
+  | name :: rest =>
+    match splitBar rest with
+    | [ps, x, sh] =>
+      match natList? ps, ratList? x, sh.mapM String.toInt? with
+      | some [rows, cols, nsh, outr, outc], some x, some sh =>
+        let memo := max (max rows cols) (max outr outc)
+        (match name with
+         | "roll_block" => cells2 outr outc (roll_block_exec memo (arr2Q cols x) rows cols (arrZ sh) nsh)
+         | "roll_block_valid" => cells2 outr outc (roll_block_valid_exec memo (arr2Q cols x) rows cols (arrZ sh) nsh)
+         | "dmt_block" => cells2 outr outc (dmt_block_exec memo (arr2Q cols x) rows cols (arr2Z rows sh) nsh rows)
+         | "dmt_block_valid" => cells2 outr outc (dmt_block_valid_exec memo (arr2Q cols x) rows cols (arr2Z rows sh) nsh rows)
+         | _ => "bad-op")
+      | _, _, _ => "bad-op"
     | _ => "bad-op"
   | _ => "bad-op"
 
@@ -725,6 +761,7 @@ def step (line : String) : String :=
   | "C04" :: rest => stepC04 rest
   | "C10" :: rest => stepC10 rest
   | "K" :: rest => stepK rest
+  | "KB" :: rest => stepKB rest
   | _ => "bad-op"
 
 partial def loop (h : IO.FS.Stream) (out : IO.FS.Stream) : IO Unit := do
